@@ -41,13 +41,20 @@ _SEM = {}
 def sem_results(F):
     if id(F) not in _SEM:
         import sig_rules as SR
-        _SEM[id(F)] = list(SR.verify_rules(F))
+        _SEM[id(F)] = list(SR.verify_rules(F)) + (list(SR.prehashed_verify_rules(F)) if F.has_cfg("feature=digest") else [])
     return _SEM[id(F)]
 
 
 def sem_equation_ok(F):
-    eq = [st for entry, clause, f, st, msg in sem_results(F) if clause == "equation"]
-    return len(eq) == 2 and all(st == "ok" for st in eq)
+    eq = [st for entry, clause, f, st, msg in sem_results(F) if clause.startswith("equation")]
+    return len(eq) >= 2 and all(st == "ok" for st in eq)
+
+
+def sem_challenge_ok(F):
+    rs = sem_results(F)
+    eq = [st for entry, clause, f, st, msg in rs if clause.startswith("equation")]
+    long_ = [st for entry, clause, f, st, msg in rs if clause == "reject_long_context"]
+    return len(eq) >= 8 and all(st == "ok" for st in eq) and len(long_) == 2 and all(st == "ok" for st in long_)
 
 
 def semantic(F, R, I, legacy):
@@ -68,7 +75,7 @@ def semantic(F, R, I, legacy):
             R.anchor_missing("C09.sem", inst, msg)
         else:
             R.note("C09.sem %s inconclusive (%s): the structural rules decide" % (inst, msg[:160]))
-    R.floor("C09.sem", I("verification clauses decided on symbolic inputs"), n, 9 if legacy else 11)
+    R.floor("C09.sem", I("verification clauses decided on symbolic inputs"), n, (9 if legacy else 11) + (10 if F.has_cfg("feature=digest") else 0))
 
 
 def check_cfg(F, R, cfg, legacy):
@@ -415,6 +422,9 @@ def check_challenge_order(F, R, cc, I, rule="C09.challenge_order"):
     good = got == {want_plain, want_ph} and all(fin for _, fin in seen)
     if good:
         R.ok(rule, I("compute_challenge"), "paths hash exactly [R,A,M] and [dom2 prefix 'SigEd25519 no Ed25519 collisions',1,len(ctx),ctx,R,A,M], then from_hash")
+    elif rule == "C09.challenge_order" and sem_challenge_ok(F):
+        R.ok(rule, I("compute_challenge"), "structural form not recognised; the hashed challenge is decided by C09.sem: every equation clause (no context, 3- and 255-byte contexts) "
+             "hashes dom2 || len || ctx || R || A || M exactly and a 256-byte context is rejected")
     else:
         R.viol(rule, I("compute_challenge"), "hash input sequences are %s; expected [R,A,M] and [dom2,1,len,ctx,R,A,M]" % sorted(map(str, got)), fv.loc())
 
